@@ -10,7 +10,7 @@ Record case := mkCase {
                                    9 ethereum 10 ftp 11 http 12 https 13 ipp 14 ldap 15 memcached 16 ntp
                                    17 redis 18 smtp 19 snmp 20 ssh-auth 21 ssh-simulator 22 telnet 23 tftp 24 vnc *)
   c_udp : bool;
-  c_stream : N;                 (* 1 dialogue 2 truncated 3 mutated 4 raw 5 corpus 6 ssh dialogue 8 tftp load *)
+  c_stream : N;                 (* 1 dialogue 2 truncated 3 mutated 4 raw 5 corpus 6 ssh dialogue 8 tftp load 9 systematic BER *)
   c_conns : list conn;          (* per connection: the writes (tcp) / datagrams (udp) *)
   c_ssh : list (N * bytes);     (* ssh dialogue: channel requests (type code, payload) *)
   c_sshchan : N;                (* 0 session, 1 direct-tcpip, 2 forwarded-tcpip, 3 other *)
@@ -22,8 +22,9 @@ Record case := mkCase {
   o_evts : N;                   (* fatal-severity events = panics recovered by handle *)
   o_grow : bool;                (* live heap kept growing while all clients were idle *)
   o_probe : bool;               (* a fresh echo connection was served afterwards *)
-  o_died : N                    (* 0 alive 1 unrecovered panic 2 concurrent map access 3 out of memory
+  o_died : N;                   (* 0 alive 1 unrecovered panic 2 concurrent map access 3 out of memory
                                    4 stack overflow 5 other fatal error 6 other exit 7 heap ceiling *)
+  o_replied : N                 (* connections on which the server wrote something (raw tcp) *)
 }.
 
 (* observation classes *)
@@ -94,7 +95,8 @@ Definition predict (c : case) : option (list N) :=
     | [k] => match ldap_envelope (stream_of k) with
              | ERefused => Some [K_OK]                 (* also when the segment is repeated: the header decides *)
              | EShort | EMalformed => if (k_rep k =? 0)%N then Some [K_OK] else None
-             | EOk _ => None                           (* the library and the handlers go on *)
+             | EOk _ => if (c_stream c =? 9)%N then Some [K_OK]   (* checked buffer: the library's allocations are bounded *)
+                        else None                      (* the handlers go on *)
              end
     | _ => None
     end
@@ -135,8 +137,19 @@ Definition predict (c : case) : option (list N) :=
 
 Definition mem_N (x : N) (l : list N) : bool := existsb (N.eqb x) l.
 
+(* systematic BER against ldap: does the server answer?  The decision of readPacket +
+   tlvLengthsFit (and of the library behind them) is compared, not only the outcome class. *)
+Definition reply_mismatch (c : case) : bool :=
+  if ((c_svc c =? 14) && (c_stream c =? 9))%N && negb (c_udp c) && (o_died c =? 0)%N then
+    match c_conns c with
+    | [k] => negb (Bool.eqb (0 <? o_replied c)%N (ldap_answers (stream_of k)))
+    | _ => false
+    end
+  else false.
+
 Definition mismatches (cs : list case) : list N :=
   map c_id (filter (fun c =>
+    reply_mismatch c ||
     match predict c with
     | None => false
     | Some allowed => negb (mem_N (obs_class c) allowed)
